@@ -149,5 +149,9 @@ def run(chk: Check) -> None:
     from sa.summaries import Summaries
     from .c16 import run_factor
     run_factor(chk.renamed({"C16.R4": "C01.R3"}), prog, Summaries(prog))
+    # contracts of other parts of the library this check takes for granted (summaries, token model, reference grammar):
+    # the clauses that check the source against them, replayed under this property (props/contracts.py)
+    from .contracts import run_contracts
+    run_contracts(chk, prog, ['clone', 'evaluate', 'traversal'])
     chk.exhaustive = True
     chk.max_undecided = 0
